@@ -322,6 +322,22 @@ POOLS = {
 
 
 # ---------------------------------------------------------------- viewer world
+def exception_detail(e):
+    """Structural class of an exception raised by glue during an operation (goes into signatures)."""
+    if isinstance(e, AttributeError) and "'NoneType' has no attribute" in str(e):
+        # ComboHelper.choices / _on_rename with helper.state (a weak reference) already dead
+        return "picker_of_collected_state"
+    return type(e).__name__
+
+
+def note_exception(world, name, e):
+    world.prev_raised = True
+    if not world.after_exception:
+        world.exception_in = name      # the first operation that raised since the last clean check
+        world.exception_kind = exception_detail(e)
+    world.after_exception = True
+
+
 class AutoAdd(HubListener):
     """What applications do: when a dataset joins the collection, hand it to the viewer - from inside the hub delivery.
     Also reacts to a new subset by changing its style (a re-entrant broadcast while the create message is delivered)."""
@@ -341,10 +357,7 @@ class AutoAdd(HubListener):
             ok = w.viewer.add_data(d)
         except Exception as e:
             w.ctx.count("auto_add_raised:%s:%s" % (w.kind, type(e).__name__))
-            w.prev_raised = True
-            if not w.after_exception:
-                w.exception_in = "auto_add_data"
-            w.after_exception = True
+            note_exception(w, "auto_add_data", e)
             ok = any(a.layer is d for a in w.viewer.layers)
         if ok:
             w.ctx.count("auto_add_during_delivery:" + w.kind)
@@ -373,7 +386,7 @@ class VWorld:
         self.dc = DataCollection(self.pool[:n0])
         self.app = HApp(self.dc)
         self.viewer = self.app.new_data_viewer(viewer_cls(kind))
-        self._auto_wanted = rng.random() < 0.3
+        self._auto_wanted = rng.random() < 0.4
         # harness model of what the viewer has been given
         self.given = []        # datasets
         self.lonely = []       # subsets added without their dataset (or left behind by removing the dataset's own layer)
@@ -384,11 +397,13 @@ class VWorld:
         self.prev_raised = False
         self.pending_readd = None
         self.pending_readd_now = None
+        self.script_empty_now = False
         self.auto = None
         self.ever_given = []
         self.after_exception = False
         self.out_of_domain = False
         self.exception_in = None      # name of the operation that raised most recently (structural, goes into signatures)
+        self.exception_kind = None
         if self._auto_wanted:
             self.auto = AutoAdd(self)
             ctx.count("viewer_histories_with_reentrant_auto_add_listener")
@@ -560,8 +575,25 @@ def gen_viewer_op(world, rng):
              ("reorder_components", 2), ("add_subset", 3), ("remove_subset", 3), ("remove_layer", 3),
              ("state_layers_remove", 2), ("select", 10), ("flip_filter", 4), ("add_data_outside", 1),
              ("update_values", 2), ("coords_change", 1), ("clear_collection", 1), ("many_groups", 2), ("add_link", 2),
-             ("remove_link", 1), ("readd_after_emptied", 7), ("remove_all_data_layers", 2)]
+             ("remove_link", 1), ("readd_after_emptied", 5), ("remove_all_data_layers", 4)]
     name = rng.choices([k for k, _ in table], [w for _, w in table])[0]
+    if world.script_empty_now and [d for d in world.given if is_in(d, in_dc)]:
+        # scripted half-way through 40 % of the histories: take everything away from the viewer, then (next step) give
+        # the same dataset back
+        world.script_empty_now = False
+        gone = list(world.given)
+        lone = list(world.lonely)
+        world.pending_readd = gone[-1]
+
+        def call_empty():
+            for d in gone:
+                v.remove_data(d)
+            for s_ in lone:
+                v.remove_subset(s_)
+
+        def upd_empty_all(ok, ret):
+            world.given, world.lonely, world.hidden = [], [], []
+        return "remove_data:emptying_the_viewer", call_empty, upd_empty_all
     if world.pending_readd is not None:
         # second half of do - remove - re-add: the dataset that was just taken away comes back
         name, world.pending_readd_now = "readd_after_emptied", world.pending_readd
@@ -966,8 +998,11 @@ def run_viewer_history(ctx, kind, length):
     step = 0
     try:
         problems = report_viewer(ctx, world, "start", prev, trace, quiescent_check(world, world.viewer, expected_layers=world.expected_layers()))
+        empty_at = length // 2 if rng.random() < 0.4 else -1
         while step < length and not problems and not world.out_of_domain:
-            in_block = rng.random() < 0.12
+            if step >= empty_at >= 0:
+                world.script_empty_now, empty_at = True, -1
+            in_block = rng.random() < 0.12 and not world.script_empty_now and world.pending_readd is None
             names = []
             if in_block:
                 n = rng.randint(2, 3)
@@ -982,13 +1017,11 @@ def run_viewer_history(ctx, kind, length):
                         cm.__exit__(None, None, None)
                     except Exception as e:
                         # a listener raised while the queued messages were delivered
-                        if not world.after_exception:
-                            # attributed to the coordinate replacement / component removal when the block contains one
-                            # (their messages are only delivered now), otherwise to the block as such
-                            suspects = [x for x in names if x.startswith("coords_change")] + \
-                                       [x for x in names if x.startswith("remove_component")]
-                            world.exception_in = suspects[0] if suspects else "delay_block_exit"
-                        world.after_exception = True
+                        # attributed to the coordinate replacement / component removal when the block contains one
+                        # (their messages are only delivered now), otherwise to the block as such
+                        suspects = [x for x in names if x.startswith("coords_change")] + \
+                                   [x for x in names if x.startswith("remove_component")]
+                        note_exception(world, suspects[0] if suspects else "delay_block_exit", e)
                         ctx.count("op_raised:%s:delay_block_exit:%s" % (kind, type(e).__name__))
                         trace.append(["delay_block_exit", "raised:" + type(e).__name__, str(e)[:120]])
                 name = "block(" + "+".join(sorted(set(x.split(":")[0] for x in names))) + ")"
@@ -1018,10 +1051,7 @@ def apply_op(ctx, world, rng, trace):
         ctx.count("op_rejected:%s:%s" % (world.kind, name))
     except Exception as e:
         ok = False
-        world.prev_raised = True
-        if not world.after_exception:
-            world.exception_in = name      # the first operation that raised since the last clean check
-        world.after_exception = True
+        note_exception(world, name, e)
         ctx.count("op_raised:%s:%s:%s" % (world.kind, name, type(e).__name__))
         if name.startswith("add_data") and world.kind == "image" and "scatter plot overlay" in str(e):
             ctx.count("image_first_dataset_1d_out_of_domain")
@@ -1057,13 +1087,14 @@ def report_viewer(ctx, world, name, prev, trace, res, stage="live"):
                "stage": stage, "after_exception": world.after_exception}
         if world.after_exception:
             sig["exception_in"] = world.exception_in
+            sig["exception_detail"] = world.exception_kind
         if ":" in name and not name.startswith("block"):
             sig["op_variant"] = name.split(":", 1)[1]
         sig.update(extra)
         ctx.violation(sig, {"trace": trace[-10:], "detail": detail, "pool": [[lab(d), list(d.shape), d.coords is not None] for d in world.pool]})
     if not res and stage == "live":
         # an exception that left no visible damage is forgotten
-        world.after_exception, world.exception_in = False, None
+        world.after_exception, world.exception_in, world.exception_kind = False, None, None
     return len(res)
 
 
@@ -1122,6 +1153,7 @@ def save_restore(ctx, world, trace):
         w2 = VWorld.__new__(VWorld)
         w2.ctx, w2.kind, w2.viewer, w2.pool, w2.after_exception = ctx, kind, v2, world.pool, world.after_exception
         w2.exception_in = world.exception_in
+        w2.exception_kind = world.exception_kind
         w2.prev_raised = False
         w2.out_of_domain = False
         res = quiescent_check(w2, v2, expected_keys=saved_keys, stage="restored")
@@ -1505,24 +1537,24 @@ def floors(counters, tier):
         if counters.get("save_restore_attempts:" + k, 0) < 6:
             out.append("fewer than 6 save/restore attempts on the %s viewer" % k)
     for k in ("scatter", "image"):
-        if counters.get("restores_checked:" + k, 0) < 5:
-            out.append("fewer than 5 restored %s viewers checked" % k)
+        if counters.get("restores_checked:" + k, 0) < 3:
+            out.append("fewer than 3 restored %s viewers checked" % k)
     if counters.get("picker_history_checks", 0) < 500:
         out.append("fewer than 500 checks in the bare picker histories")
-    if counters.get("image_axes_checks", 0) < 40:
-        out.append("fewer than 40 image axis checks")
+    if counters.get("image_axes_checks", 0) < 25:
+        out.append("fewer than 25 image axis checks")
     if counters.get("state_round_trips", 0) < 9:
         out.append("fewer than 9 State round trips")
     if counters.get("delay_blocks", 0) < 10:
         out.append("fewer than 10 delay blocks")
-    if sum(v for k, v in counters.items() if k.startswith("quiescent_checks_with_only_subset_layers:")) < 15:
-        out.append("fewer than 15 checks on a viewer holding only subset layers")
-    if sum(v for k, v in counters.items() if k.startswith("readded_after_viewer_was_emptied:")) < 4:
-        out.append("fewer than 4 re-additions of a dataset after the viewer had been emptied")
+    if sum(v for k, v in counters.items() if k.startswith("quiescent_checks_with_only_subset_layers:")) < 6:
+        out.append("fewer than 6 checks on a viewer holding only subset layers")
+    if sum(v for k, v in counters.items() if k.startswith("readded_after_viewer_was_emptied:")) < 6:
+        out.append("fewer than 6 re-additions of a dataset after the viewer had been emptied")
     if counters.get("add_data_of_dataset_owning_derived_components", 0) < 20:
         out.append("fewer than 20 add_data calls with a dataset that owns derived components")
-    if sum(v for k, v in counters.items() if k.startswith("auto_add_during_delivery:")) < 5:
-        out.append("fewer than 5 datasets handed to a viewer by a listener during hub delivery")
+    if sum(v for k, v in counters.items() if k.startswith("auto_add_during_delivery:")) < 3:
+        out.append("fewer than 3 datasets handed to a viewer by a listener during hub delivery")
     if counters.get("picker_op:numeric_off", 0) + counters.get("picker_op:all_flags", 0) < 40:
         out.append("fewer than 40 picker steps switching the numeric filter off / all filters at once")
     if counters.get("picker_op:ephemeral_dataset", 0) < 10:
